@@ -1,0 +1,27 @@
+//go:build verif
+
+// Package verifhook provides scheduling gates and trace events for the external
+// verification harness. It is only active when built with -tags verif; without
+// the tag every function is an empty, inlinable no-op.
+package verifhook
+
+var (
+	// AtFn is called at a named scheduling point of the node with the given id.
+	// It may block the calling goroutine (gate) or perturb the schedule.
+	AtFn func(point string, node uint64)
+	// EvFn is called at a linearization point, after the state change and before
+	// the protecting lock is released.
+	EvFn func(name string, node uint64, a, b, c uint64)
+)
+
+func At(point string, node uint64) {
+	if f := AtFn; f != nil {
+		f(point, node)
+	}
+}
+
+func Ev(name string, node uint64, a, b, c uint64) {
+	if f := EvFn; f != nil {
+		f(name, node, a, b, c)
+	}
+}
